@@ -30,6 +30,7 @@ EXTENDS TracerCases
 
 CONSTANTS EsrchFatal,   \* TRUE = tree before the fix: ESRCH from a ptrace request ends the run
           ChildSigsysIgnored,  \* TRUE = tree before the fix: a filter-killed child process does not end the run
+          ClenPanics,   \* TRUE = tree before the fix: a full path buffer without NUL panics the tracer
           Noise,        \* TRUE = model SIGCHLD to parents and group-stop participation of sibling threads
           AnyDecision   \* TRUE = C15: the handler's answer is arbitrary (tracee memory unreadable / garbage)
 
@@ -42,7 +43,8 @@ VARIABLES
   ev,       \* [task -> [t, x]] the pending / reported event of a stop or the exit status of a zombie
   pc,       \* [task -> index of the current op]
   sub,      \* [task -> "" | "in" (inside a traced call) | "sp" (spawn issued) | "sq" (signal queued)]
-  pend,     \* [task -> set of pending signals]
+  pend,     \* [task -> set of pending signals (other than SIGCHLD)]
+  nchld,    \* [task -> pending SIGCHLD notifications, 0..2] (a stop and an exit of a child may be taken separately)
   gtok,     \* [task -> group-stop participations still owed]
   regs,     \* [task -> [skip, ret]] what the tracer wrote into the registers during the current seccomp stop
   opts,     \* [task -> BOOLEAN] PTRACE_O_TRACE{FORK,VFORK,CLONE,SECCOMP,EXEC} in force
@@ -62,7 +64,7 @@ VARIABLES
   rets,     \* [task -> sequence of [i, op, ret]] what the program saw (its own log)
   trapped   \* sequence of [m, act] handler consultations
 
-kvars == <<ts, ev, pc, sub, pend, gtok, regs, opts, scnt, lph, esc>>
+kvars == <<ts, ev, pc, sub, pend, nchld, gtok, regs, opts, scnt, lph, esc>>
 tvars == <<tpc, cur, csig, traced, execved, result>>
 ovars == <<executed, uexec, rets, trapped>>
 cvars == <<script, dec, par, knd, ldr>>
@@ -94,6 +96,7 @@ InitCase(c) ==
   /\ pc = [k \in DOMAIN c.script |-> 1]
   /\ sub = [k \in DOMAIN c.script |-> ""]
   /\ pend = [k \in DOMAIN c.script |-> {}]
+  /\ nchld = [k \in DOMAIN c.script |-> 0]
   /\ gtok = [k \in DOMAIN c.script |-> 0]
   /\ regs = [k \in DOMAIN c.script |-> [skip |-> FALSE, ret |-> 0]]
   /\ opts = [k \in DOMAIN c.script |-> FALSE]
@@ -115,9 +118,10 @@ Log(k, r) == rets' = [rets EXCEPT ![k] = Append(@, [i |-> pc[k], op |-> CurOp(k)
 \* a pending signal is taken: signal-delivery-stop (a vfork parent sleeps uninterruptibly)
 InVforkWait(k) == sub[k] = "sp" /\ CurOp(k).k = "V" /\ ts[CurOp(k).n] \in {"stop", "held", "run"}
 K_Deliver(k) ==
-  /\ Runs(k) /\ pend[k] # {} /\ ~InVforkWait(k)
-  /\ \E s \in pend[k] :
+  /\ Runs(k) /\ ~InVforkWait(k)
+  /\ \E s \in pend[k] \cup (IF nchld[k] > 0 THEN {SIGCHLD} ELSE {}) :
        /\ pend' = [pend EXCEPT ![k] = @ \ {s}]
+       /\ nchld' = IF s = SIGCHLD THEN [nchld EXCEPT ![k] = @ - 1] ELSE nchld
        /\ ts' = [ts EXCEPT ![k] = "stop"]
        /\ ev' = [ev EXCEPT ![k] = Ev("sig", s)]
   /\ UNCHANGED <<pc, sub, gtok, regs, opts, scnt, lph, esc, cvars, tvars, ovars>>
@@ -128,7 +132,7 @@ K_GroupStop(k) ==
   /\ gtok' = [gtok EXCEPT ![k] = @ - 1]
   /\ ts' = [ts EXCEPT ![k] = "stop"]
   /\ ev' = [ev EXCEPT ![k] = Ev("grp", SIGSTOP)]
-  /\ UNCHANGED <<pc, sub, pend, regs, opts, scnt, lph, esc, cvars, tvars, ovars>>
+  /\ UNCHANGED <<pc, sub, pend, nchld, regs, opts, scnt, lph, esc, cvars, tvars, ovars>>
 
 (* ------------------------------------------------------------------ kernel: launcher (task 1 before the program) *)
 \* forkexec child: PTRACE_TRACEME, kill(getpid(), SIGSTOP), seccomp(TSYNC), execve
@@ -136,14 +140,14 @@ K_Raise ==
   /\ Runs(1) /\ lph = "raise"
   /\ lph' = "stopped"
   /\ ts' = [ts EXCEPT ![1] = "stop"] /\ ev' = [ev EXCEPT ![1] = Ev("sig", SIGSTOP)]
-  /\ UNCHANGED <<pc, sub, pend, gtok, regs, opts, scnt, esc, cvars, tvars, ovars>>
+  /\ UNCHANGED <<pc, sub, pend, nchld, gtok, regs, opts, scnt, esc, cvars, tvars, ovars>>
 K_Exec ==
   /\ Runs(1) /\ lph = "stopped" /\ pend[1] = {}
   /\ lph' = "prog"
   /\ IF opts[1]
        THEN ts' = [ts EXCEPT ![1] = "stop"] /\ ev' = [ev EXCEPT ![1] = Ev("exec", 0)]
        ELSE ts' = [ts EXCEPT ![1] = "stop"] /\ ev' = [ev EXCEPT ![1] = Ev("sig", SIGTRAP)]   \* plain SIGTRAP after exec
-  /\ UNCHANGED <<pc, sub, pend, gtok, regs, opts, scnt, esc, cvars, tvars, ovars>>
+  /\ UNCHANGED <<pc, sub, pend, nchld, gtok, regs, opts, scnt, esc, cvars, tvars, ovars>>
 InProg(k) == k # 1 \/ lph = "prog"
 
 (* ------------------------------------------------------------------ kernel: program steps *)
@@ -155,7 +159,7 @@ K_SysEnter(k) ==
   /\ sub' = [sub EXCEPT ![k] = "in"]
   /\ regs' = [regs EXCEPT ![k] = [skip |-> FALSE, ret |-> 0]]
   /\ ts' = [ts EXCEPT ![k] = "stop"] /\ ev' = [ev EXCEPT ![k] = Ev("sec", 0)]
-  /\ UNCHANGED <<pc, pend, gtok, opts, scnt, lph, esc, cvars, tvars, ovars>>
+  /\ UNCHANGED <<pc, pend, nchld, gtok, opts, scnt, lph, esc, cvars, tvars, ovars>>
 \* phase 2: resumed; the call runs unless the tracer neutralised it
 K_SysExit(k) ==
   /\ Ready(k) /\ sub[k] = "in"
@@ -164,25 +168,25 @@ K_SysExit(k) ==
   /\ IF regs[k].skip
        THEN /\ Log(k, regs[k].ret) /\ UNCHANGED executed
        ELSE /\ executed' = executed \cup {CurOp(k).a} /\ Log(k, 0)
-  /\ UNCHANGED <<ts, ev, pend, gtok, regs, opts, scnt, lph, esc, cvars, tvars, uexec, trapped>>
+  /\ UNCHANGED <<ts, ev, pend, nchld, gtok, regs, opts, scnt, lph, esc, cvars, tvars, uexec, trapped>>
 
 K_Untraced(k) ==
   /\ Ready(k) /\ sub[k] = "" /\ CurOp(k).k = "U"
   /\ uexec' = uexec \cup {CurOp(k).a}
   /\ Log(k, 0) /\ pc' = [pc EXCEPT ![k] = @ + 1]
-  /\ UNCHANGED <<ts, ev, sub, pend, gtok, regs, opts, scnt, lph, esc, cvars, tvars, executed, trapped>>
+  /\ UNCHANGED <<ts, ev, sub, pend, nchld, gtok, regs, opts, scnt, lph, esc, cvars, tvars, executed, trapped>>
 
 \* S: queue SIGUSR1 to itself; the op completes when the signal has been taken
 K_SigQueue(k) ==
   /\ Ready(k) /\ sub[k] = "" /\ CurOp(k).k = "S"
   /\ sub' = [sub EXCEPT ![k] = "sq"] /\ scnt' = [scnt EXCEPT ![k] = 0]
   /\ pend' = [pend EXCEPT ![k] = @ \cup {SIGUSR1}]
-  /\ UNCHANGED <<ts, ev, pc, gtok, regs, opts, lph, esc, cvars, tvars, ovars>>
+  /\ UNCHANGED <<ts, ev, pc, nchld, gtok, regs, opts, lph, esc, cvars, tvars, ovars>>
 K_SigDone(k) ==
   /\ Ready(k) /\ sub[k] = "sq" /\ SIGUSR1 \notin pend[k]
   /\ sub' = [sub EXCEPT ![k] = ""] /\ pc' = [pc EXCEPT ![k] = @ + 1]
   /\ Log(k, scnt[k])
-  /\ UNCHANGED <<ts, ev, pend, gtok, regs, opts, scnt, lph, esc, cvars, tvars, executed, uexec, trapped>>
+  /\ UNCHANGED <<ts, ev, pend, nchld, gtok, regs, opts, scnt, lph, esc, cvars, tvars, executed, uexec, trapped>>
 
 \* fork / vfork / clone: the creator reports a PTRACE_EVENT stop, the new task starts in a SIGSTOP
 \* signal-delivery-stop with the creator's options
@@ -194,12 +198,12 @@ K_Spawn(k) ==
        /\ ts' = [ts EXCEPT ![k] = IF opts[k] THEN "stop" ELSE "run", ![j] = IF opts[k] THEN "stop" ELSE "run"]
        /\ ev' = [ev EXCEPT ![k] = Ev(EvOfSpawn(CurOp(k).k), 0), ![j] = Ev("sig", SIGSTOP)]
        /\ opts' = [opts EXCEPT ![j] = opts[k]]
-  /\ UNCHANGED <<pc, pend, gtok, regs, scnt, lph, esc, cvars, tvars, ovars>>
+  /\ UNCHANGED <<pc, pend, nchld, gtok, regs, scnt, lph, esc, cvars, tvars, ovars>>
 K_SpawnRet(k) ==
   /\ Ready(k) /\ sub[k] = "sp" /\ ~InVforkWait(k)
   /\ sub' = [sub EXCEPT ![k] = ""] /\ pc' = [pc EXCEPT ![k] = @ + 1]
   /\ Log(k, 1)
-  /\ UNCHANGED <<ts, ev, pend, gtok, regs, opts, scnt, lph, esc, cvars, tvars, executed, uexec, trapped>>
+  /\ UNCHANGED <<ts, ev, pend, nchld, gtok, regs, opts, scnt, lph, esc, cvars, tvars, executed, uexec, trapped>>
 
 \* W: wait4 of a traced child returns once the tracer has reaped it; a thread is joined through
 \* its cleared-tid futex, i.e. as soon as it is dead
@@ -208,7 +212,7 @@ K_Wait(k) ==
   /\ Ready(k) /\ sub[k] = "" /\ CurOp(k).k = "W"
   /\ \A j \in Created(k) : Gone(j)
   /\ Log(k, 0) /\ pc' = [pc EXCEPT ![k] = @ + 1]
-  /\ UNCHANGED <<ts, ev, sub, pend, gtok, regs, opts, scnt, lph, esc, cvars, tvars, executed, uexec, trapped>>
+  /\ UNCHANGED <<ts, ev, sub, pend, nchld, gtok, regs, opts, scnt, lph, esc, cvars, tvars, executed, uexec, trapped>>
 
 \* death of a whole thread group (exit_group, fatal signal, filter kill, SIGKILL): every live task
 \* of the group becomes a zombie with the same status, whatever it was doing -- also when it sits
@@ -217,39 +221,39 @@ Die(G, e) ==
   /\ ts' = [j \in Tasks |-> IF j \in G /\ Alive(j) THEN "zombie" ELSE ts[j]]
   /\ ev' = [j \in Tasks |-> IF j \in G /\ Alive(j) THEN e ELSE ev[j]]
 ChldTo(k) == LET p == par[Leader(k)] IN
-  IF Noise /\ p # 0 /\ Alive(p) THEN [pend EXCEPT ![p] = @ \cup {SIGCHLD}] ELSE pend
+  IF Noise /\ p # 0 /\ Alive(p) THEN [nchld EXCEPT ![p] = IF @ < 2 THEN @ + 1 ELSE @] ELSE nchld
 
 K_ExitGroup(k) ==
   /\ Ready(k) /\ sub[k] = "" /\ CurOp(k).k = "X"
   /\ Log(k, CurOp(k).n)
   /\ Die(Group(k), Ev("exit", CurOp(k).n))
-  /\ pend' = ChldTo(k)
+  /\ nchld' = ChldTo(k) /\ UNCHANGED pend
   /\ UNCHANGED <<pc, sub, gtok, regs, opts, scnt, lph, esc, cvars, tvars, executed, uexec, trapped>>
 K_ExitThread(k) ==
   /\ Ready(k) /\ sub[k] = "" /\ CurOp(k).k = "E"
   /\ Log(k, 0)
   /\ Die({k}, Ev("exit", 0))
-  /\ UNCHANGED <<pc, sub, pend, gtok, regs, opts, scnt, lph, esc, cvars, tvars, executed, uexec, trapped>>
+  /\ UNCHANGED <<pc, sub, pend, nchld, gtok, regs, opts, scnt, lph, esc, cvars, tvars, executed, uexec, trapped>>
 \* SECCOMP_RET_KILL_PROCESS
 K_FilterKill(k) ==
   /\ Ready(k) /\ sub[k] = "" /\ CurOp(k).k = "K"
   /\ Die(Group(k), Ev("killed", SIGSYS))
-  /\ pend' = ChldTo(k)
+  /\ nchld' = ChldTo(k) /\ UNCHANGED pend
   /\ UNCHANGED <<pc, sub, gtok, regs, opts, scnt, lph, esc, cvars, tvars, ovars>>
 \* C15: the program SIGKILLs one of its own tasks (whole thread group of the target)
 K_Kill(k) ==
   /\ Ready(k) /\ sub[k] = "" /\ CurOp(k).k = "J"
   /\ LET j == CurOp(k).n IN
        /\ Die(Group(j), Ev("killed", SIGKILL))
-       /\ pend' = IF \E i \in Group(j) : Alive(i) THEN ChldTo(j) ELSE pend
+       /\ nchld' = IF \E i \in Group(j) : Alive(i) THEN ChldTo(j) ELSE nchld
   /\ Log(k, 0) /\ pc' = [pc EXCEPT ![k] = @ + 1]
-  /\ UNCHANGED <<sub, gtok, regs, opts, scnt, lph, esc, cvars, tvars, executed, uexec, trapped>>
+  /\ UNCHANGED <<sub, pend, gtok, regs, opts, scnt, lph, esc, cvars, tvars, executed, uexec, trapped>>
 \* C15: setsid(): the task leaves the process group the tracer waits on
 K_Setsid(k) ==
   /\ Ready(k) /\ sub[k] = "" /\ CurOp(k).k = "P"
   /\ esc' = [esc EXCEPT ![k] = TRUE]
   /\ Log(k, 1) /\ pc' = [pc EXCEPT ![k] = @ + 1]
-  /\ UNCHANGED <<ts, ev, sub, pend, gtok, regs, opts, scnt, lph, cvars, tvars, executed, uexec, trapped>>
+  /\ UNCHANGED <<ts, ev, sub, pend, nchld, gtok, regs, opts, scnt, lph, cvars, tvars, executed, uexec, trapped>>
 
 KStep(k) ==
   \/ K_Deliver(k) \/ K_GroupStop(k)
@@ -268,12 +272,12 @@ Resume(k, s) ==
        /\ ev' = [ev EXCEPT ![k] = Ev("grp", SIGSTOP)]
        /\ gtok' = [j \in Tasks |-> IF ~Noise THEN gtok[j] ELSE IF j \in Group(k) /\ j # k /\ Alive(j) THEN 1
                                    ELSE IF j = k /\ Cardinality({i \in Group(k) : Alive(i)}) > 1 THEN 1 ELSE gtok[j]]
-       /\ pend' = ChldTo(k)
+       /\ nchld' = ChldTo(k) /\ UNCHANGED pend
        /\ UNCHANGED scnt
   ELSE /\ ts' = [ts EXCEPT ![k] = "run"]
        /\ ev' = [ev EXCEPT ![k] = NoEv]
        /\ scnt' = IF ev[k].t = "sig" /\ ev[k].x = SIGUSR1 /\ s = SIGUSR1 THEN [scnt EXCEPT ![k] = @ + 1] ELSE scnt
-       /\ UNCHANGED <<gtok, pend>>
+       /\ UNCHANGED <<gtok, pend, nchld>>
 
 (* ------------------------------------------------------------------ tracer *)
 \* what wait4 can report: a stop not yet reported, or a zombie (a leader only after its threads)
@@ -309,20 +313,23 @@ T_Wait ==
             /\ ts' = [ts EXCEPT ![k] = "dead"]
             /\ traced' = IF ev[k].t = "exit" \/ k = 1 THEN traced \ {k} ELSE traced
             /\ IF k = 1 THEN
-                 IF ev[k].t = "exit"
-                   THEN IF execved THEN Finish(IF ev[k].x = 0 THEN "Normal" ELSE "Nonzero", ev[k].x)
-                                   ELSE Finish("RunnerError", 0)
-                   ELSE Finish(StatusOfSignal(ev[k].x), ev[k].x)
+                 /\ UNCHANGED csig
+                 /\ IF ev[k].t = "exit"
+                      THEN IF execved THEN Finish(IF ev[k].x = 0 THEN "Normal" ELSE "Nonzero", ev[k].x)
+                                      ELSE Finish("RunnerError", 0)
+                      ELSE Finish(StatusOfSignal(ev[k].x), ev[k].x)
                ELSE IF ev[k].t = "killed" /\ ev[k].x = SIGSYS /\ ~ChildSigsysIgnored
-                 THEN Finish("Disallowed", SIGSYS)
-               ELSE tpc' = "wait" /\ UNCHANGED result      \* (PtraceCont on a dead pid: no effect)
-            /\ UNCHANGED <<csig, execved>>
+                 THEN Finish("Disallowed", SIGSYS) /\ UNCHANGED csig
+               ELSE IF ev[k].t = "killed"
+                 THEN tpc' = "cont" /\ csig' = ev[k].x /\ UNCHANGED result   \* PtraceCont(pid, sig) on a dead pid: no effect
+               ELSE tpc' = "wait" /\ UNCHANGED <<result, csig>>
+            /\ UNCHANGED execved
           ELSE
             /\ ts' = [ts EXCEPT ![k] = "held"]
             /\ IF k \notin traced
                  THEN tpc' = "setopt" /\ UNCHANGED <<csig, execved, result, traced>>
                  ELSE StopDispatch(k) /\ UNCHANGED traced
-  /\ UNCHANGED <<ev, pc, sub, pend, gtok, regs, opts, scnt, lph, esc, cvars, ovars>>
+  /\ UNCHANGED <<ev, pc, sub, pend, nchld, gtok, regs, opts, scnt, lph, esc, cvars, ovars>>
 
 \* a ptrace request on the current task works iff it is still sitting in the stop
 CanPtrace == ts[cur] = "held"
@@ -335,25 +342,29 @@ T_SetOpt ==
        /\ StopDispatch(cur)
      ELSE IF EsrchFatal THEN Finish("RunnerError", 0) /\ UNCHANGED <<opts, csig, execved>>
      ELSE StopDispatch(cur) /\ UNCHANGED opts
-  /\ UNCHANGED <<ts, ev, pc, sub, pend, gtok, regs, scnt, lph, esc, cur, cvars, ovars>>
+  /\ UNCHANGED <<ts, ev, pc, sub, pend, nchld, gtok, regs, scnt, lph, esc, cur, cvars, ovars>>
 
 \* handleTrap: GETREGSET, Handler.Handle, and for a ban SETREGS(orig_rax = -1, rax = -BanRet)
 T_Trap ==
   /\ tpc = "trap"
   /\ IF CanPtrace THEN
+       \* C15: reading the path from tracee memory yields nothing, part of it, or a full buffer
+       \* without NUL; whatever the handler then makes of it, it answers with one of its verdicts
+       \E mo \in (IF AnyDecision THEN {"ok", "nothing", "partial", "fullnonul"} ELSE {"ok"}) :
        \E d \in (IF AnyDecision THEN Decisions ELSE {dec[CurOp(cur).a]}) :
          /\ trapped' = Append(trapped, [m |-> CurOp(cur).a, act |-> d])
-         /\ CASE d = "allow" -> tpc' = "cont" /\ UNCHANGED <<regs, result>>
+         /\ CASE mo = "fullnonul" /\ ClenPanics -> Finish("RunnerError", 0) /\ UNCHANGED regs
+              [] d = "allow" -> tpc' = "cont" /\ UNCHANGED <<regs, result>>
               [] d = "ban" -> tpc' = "cont" /\ regs' = [regs EXCEPT ![cur] = [skip |-> TRUE, ret |-> -BanRet]] /\ UNCHANGED result
               [] d = "kill" -> Finish("Disallowed", 0) /\ UNCHANGED regs
      ELSE /\ UNCHANGED <<trapped, regs>>
           /\ IF EsrchFatal THEN Finish("Disallowed", 0) ELSE tpc' = "cont" /\ UNCHANGED result
-  /\ UNCHANGED <<ts, ev, pc, sub, pend, gtok, opts, scnt, lph, esc, cur, csig, traced, execved, cvars, executed, uexec, rets>>
+  /\ UNCHANGED <<ts, ev, pc, sub, pend, nchld, gtok, opts, scnt, lph, esc, cur, csig, traced, execved, cvars, executed, uexec, rets>>
 
 T_Cont ==
   /\ tpc = "cont"
   /\ tpc' = "wait"
-  /\ IF CanPtrace THEN Resume(cur, csig) ELSE UNCHANGED <<ts, ev, gtok, pend, scnt>>
+  /\ IF CanPtrace THEN Resume(cur, csig) ELSE UNCHANGED <<ts, ev, gtok, pend, nchld, scnt>>
   /\ UNCHANGED <<pc, sub, regs, opts, lph, esc, cur, csig, traced, execved, result, cvars, ovars>>
 
 \* return from trace(): deferred killAll + collectZombie
@@ -361,7 +372,7 @@ T_KillAll ==
   /\ tpc = "fin"
   /\ tpc' = "done"
   /\ ts' = [k \in Tasks |-> IF ts[k] = "unborn" \/ esc[k] THEN ts[k] ELSE "dead"]
-  /\ UNCHANGED <<ev, pc, sub, pend, gtok, regs, opts, scnt, lph, esc, cur, csig, traced, execved, result, cvars, ovars>>
+  /\ UNCHANGED <<ev, pc, sub, pend, nchld, gtok, regs, opts, scnt, lph, esc, cur, csig, traced, execved, result, cvars, ovars>>
 
 Done == tpc = "done" /\ UNCHANGED vars
 
